@@ -376,6 +376,42 @@ def rule_arity(prog):
         if passes_common_inc:
             e2_fall.add(v)
     e2 = e2_fall
+    if True:
+        # table form (takes precedence when it is there): `current_index += opcode_type.width()` - a method (analysed inlined) that matches on the variant and
+        # yields the number of words (or of extra words). The variants with the larger constant are the two-word ones.
+        widths = {}
+        for b in sorted(ev.reachable()):
+            for st in ev.stmts(b):
+                if not (st["k"] == "assign" and st["rv"]["k"] == "bin" and st["rv"]["op"].startswith("Add") and "mac" not in st):
+                    continue
+                a, bb = st["rv"]["a"], st["rv"]["b"]
+                if not (is_place(a) and not proj(a) and a["l"] == idx_local and is_place(bb) and not proj(bb)):
+                    continue
+                # constants that reach the added local, per definition block
+                src, seen = [bb["l"]], set()
+                const_defs = []
+                while src:
+                    l = src.pop()
+                    if l in seen:
+                        continue
+                    seen.add(l)
+                    for (db, di, kind, payload) in ev.defs().get(l, []):
+                        if kind == "assign" and payload["k"] == "use":
+                            if is_const(payload["a"]) and const_val(payload["a"]) is not None:
+                                const_defs.append((db, const_val(payload["a"])))
+                            elif is_place(payload["a"]) and not proj(payload["a"]):
+                                src.append(payload["a"]["l"])
+                for sw2 in sws:
+                    for v in sw2.all_variants:
+                        reg = set(sw2.arm_region(v))
+                        if sw2.target(v) is not None:
+                            reg.add(sw2.target(v))
+                        for db, c in const_defs:
+                            if db in reg:
+                                widths.setdefault(v, set()).add(c)
+        vals = sorted({c for cs in widths.values() for c in cs})
+        if len(vals) == 2 and vals[1] == vals[0] + 1 and all(len(cs) == 1 for cs in widths.values()):
+            e2 = {v for v, cs in widths.items() if cs == {vals[1]}}
     # parser: each call of a 2-word constructor uses both halves
     ps = prog.fn("kanata_parser::cfg::switch::parse_switch_case_bool")
     res.fn(ps)
